@@ -195,8 +195,8 @@ PROPS["C20"] = {
              "links; distinct by case hash. Shrinking sub-check: a 40-300 KiB incompressible file is truncated (or appended to) by the writer handed "
              "to Pack once 1 B - 60 KB of output have arrived; Pack may fail, but if it returns nil the same three equalities must hold."),
     "assumptions": ["cases where Pack legitimately fails (illegal link without deref) are counted, not judged"],
-    "quick": [rapid("meta", "^TestPropMeta$", 1500, shards=3), rapid("shrinking", "^TestPropShrink$", 150, shards=1)],
-    "thorough": [rapid("meta", "^TestPropMeta$", 15000, shards=10), rapid("shrinking", "^TestPropShrink$", 1500, shards=1)],
+    "quick": [rapid("meta", "^TestPropMeta$", 1500, shards=3), rapid("shrinking", "^TestPropShrink$", 150, shards=1), rapid("reuse", "^TestPropReuse$", 500, shards=1)],
+    "thorough": [rapid("meta", "^TestPropMeta$", 15000, shards=10), rapid("shrinking", "^TestPropShrink$", 1500, shards=1), rapid("reuse", "^TestPropReuse$", 8000, shards=2)],
 }
 
 PROPS["C16"] = {
@@ -234,9 +234,9 @@ PROPS["C19"] = {
              "(valid gzip+tar framing, a hazard or rule file present, a string accepted by url/regaddr pre-parsing, JSON that unmarshals); "
              "distinct by case hash."),
     "assumptions": ["documented panics (SourceAddr with an invalid sub-path, Must*, use of a closed builder) are not entry points", "a hang is declared only with a go-slug frame in the goroutine dump; otherwise the run is inconclusive"],
-    "quick": [rapid("tree", "^TestPropTree$", 500, shards=2, timeout=900), rapid("bytes", "^TestPropUnpackBytes$", 2000, shards=2),
+    "quick": [rapid("tree", "^TestPropTree$", 500, shards=2, timeout=900), rapid("tree-unpriv", "^TestPropTree$", 250, shards=1, timeout=900, uid=65534), rapid("bytes", "^TestPropUnpackBytes$", 2000, shards=2),
               rapid("addrs", "^TestPropAddr$", 50000, shards=3), rapid("manifests", "^TestPropManifests$", 8000, shards=3)],
-    "thorough": [rapid("tree", "^TestPropTree$", 8000, shards=6, timeout=7000), rapid("bytes", "^TestPropUnpackBytes$", 40000, shards=4),
+    "thorough": [rapid("tree", "^TestPropTree$", 8000, shards=6, timeout=7000), rapid("tree-unpriv", "^TestPropTree$", 3000, shards=2, timeout=7000, uid=65534), rapid("bytes", "^TestPropUnpackBytes$", 40000, shards=4),
                  rapid("addrs", "^TestPropAddr$", 400000, shards=4), rapid("manifests", "^TestPropManifests$", 100000, shards=4),
                  fuzz("FuzzUnpackBytes", "120s"), fuzz("FuzzAddr", "120s"), fuzz("FuzzManifest", "120s")],
 }
@@ -417,6 +417,13 @@ RULE_ADDENDA = {
     "C16": ("Concurrent members either make their own Packer per call, share one Packer value, or use the package-level Pack function with "
             "their own dereference flag."),
     "C07": ("The constructor route also sets URL.Opaque, URL.Fragment and query strings containing '#' on hand-built URL values."),
+    "C20": ("Reuse sub-check: one Packer value packs a tree after a Pack of another tree failed half-way, or two Packs on it overlap "
+            "(the first held at its first write while the second runs); the Meta of each call must describe that call's slug."),
+    "C19": ("Tree hazards include rule files that are not regular files and directories / files without read or search permission "
+            "(an unprivileged pass of the tree sub-check)."),
+    "C18": ("Relative paths are asked from several working directories of one Bundle value (each package directory, then outside)."),
+    "C15": ("Entries for the archive root ('./', '.', '/', 'a/..') prescribe mode and time of the destination directory; global "
+            "headers also come with directories in their name (nothing may be created for them)."),
     "C04": ("An unprivileged pass of the links sub-check, with scenario families that put the offending link into a directory recorded as read-only."),
 }
 for _k, _v in RULE_ADDENDA.items():
